@@ -116,7 +116,7 @@ def _classes(res):
 
 
 def _patch_evidence(ctx, extra):
-    path = os.path.join(fw.ROOT, "evidence", ctx.pid + ".json")
+    path = fw.evidence_path(ctx.pid)
     try:
         ev = json.load(open(path))
     except Exception:
